@@ -1,4 +1,4 @@
-import N0Verif.Proofs.XPathSelect
+import N0Verif.Proofs.XPathSelect2
 /-!
 # C06 — wildcard and predicate steps select exactly the matching elements, in order
 
@@ -283,6 +283,20 @@ theorem C06_implicit_star_path_partial (cls : Cls) (kvs : List (Str × Val)) (p 
   simp only [selectF_eq] at this
   exact this
 
+/-- **C06 (fan-out, any position).**  For the list of dict records at any position `p` of the tree
+(canonical path `P`, keys and indexes, as `xpath()` prints it), `P[*]/f` and the shorthand `P/f` return
+`[r[f] for r in rs if f in r]` through `get` (the default when empty), item access (`IndexError` when
+empty) and `first` (a single match unwrapped); the tree is unchanged.  This is `C06_star_stmt`. -/
+theorem C06_star : C06_star_stmt := by
+  intro cls kvs p f lc rs d hp hne hf hget hrs
+  refine ⟨2 * p.length + rs.length + 5, fun fuel hfuel xp hxp => ?_⟩
+  simp only [List.mem_cons, List.not_mem_nil, or_false] at hxp
+  rcases hxp with rfl | rfl
+  · have := sel2_star_explicit_path cls kvs p f lc rs d hp hne hf hget hrs fuel hfuel
+    simp only [selectF_eq] at this
+    exact this
+  · exact C06_implicit_star_path_partial cls kvs p f lc rs d hp hne hf hget hrs fuel hfuel
+
 /-- the general form of the three predicate theorems: any operator spelling, with `first` -/
 theorem C06_pred_partial (cls : Cls) (kvs : List (Str × Val)) (name k f opx op vq v : Str) (lc : Cls) (rs : List Val)
     (d : Val) (hname : PlainKey name) (hk : FieldKey k) (hf : PlainKey f) (hop : OpSpell opx op) (hlit : LitSpell vq v)
@@ -398,6 +412,14 @@ def deep : Val := .dict .n0 [(['a'], .list .plain [.str ['p'], .list .plain recs
 example : (XPath.get 20 deep ['/', '/', 'a', '[', '1', ']', '/', 'f'] .none) = (deep, .ok (.list .n0 [.str ['x'], .str ['y']])) :=
   (C06_implicit_star_path_partial .n0 _ [.key ['a'], .idx 1] ['f'] .plain recsList .none
     ⟨⟨by decide, by decide, by decide⟩, trivial⟩ (by simp) plainKey_f rfl (by decide) 20 (by decide)).1
+
+/-- `C06_star` on the same tree: the explicit `//a[1][*]/f` (the last step of `P` is an index, so `[*]` is a
+token of its own after `replace("][","]/[")`) -/
+example : ∃ n, ∀ fuel ≥ n, (XPath.get fuel deep ['/', '/', 'a', '[', '1', ']', '[', '*', ']', '/', 'f'] .none)
+    = (deep, .ok (.list .n0 [.str ['x'], .str ['y']])) := by
+  obtain ⟨n, h⟩ := C06_star .n0 [(['a'], .list .plain [.str ['p'], .list .plain recsList])] [.key ['a'], .idx 1] ['f'] .plain recsList .none
+    ⟨⟨by decide, by decide, by decide⟩, trivial⟩ (by simp) plainKey_f rfl (by decide)
+  exact ⟨n, fun fuel hf => (h fuel hf _ (List.mem_cons_self ..)).1⟩
 
 /-! the selecting forms on a concrete record list, evaluated by the model (all five forms) -/
 example : (XPath.get 60 recs ['r', '[', '*', ']', '/', 'f'] .none).2 = .ok (.list .n0 [.str ['x'], .str ['y']]) := by decide
